@@ -573,6 +573,12 @@ func (c *connection) flush() error {
 }
 
 func (c *connection) waitFlush() (err error) {
+	// A close wakes the flusher through writeTrigger once. A flusher that takes the flushing lock over from
+	// the one that consumed this wake-up (it had passed its IsActive test before the close) must not wait
+	// for another one: nobody would send it, and Close itself waits for the flushing lock.
+	if !c.IsActive() {
+		return Exception(ErrConnClosed, "when flush")
+	}
 	timeout := c.writeTimeout
 	if dl := c.writeDeadline; dl > 0 {
 		timeout = time.Duration(dl - time.Now().UnixNano())
